@@ -138,3 +138,103 @@ pub fn verif_set_memo_capacity(size: Option<usize>) {
 pub fn verif_thread_state() -> (usize, Vec<String>) {
     utils::verif_thread_state()
 }
+
+/// Apply one of the hand-written lexers (the span primitives of the grammar) to the start of `text`.
+/// `None`: no lexer of that name; `Some(None)`: the lexer fails; `Some(Some((consumed, offset, len, line)))`:
+/// bytes consumed and the one `Locate` / `Span` it returned.
+#[cfg(feature = "verif")]
+pub fn verif_lex(
+    name: &str,
+    text: &str,
+    in_directive: bool,
+) -> Option<Option<(usize, usize, usize, u32)>> {
+    use sv_parser_syntaxtree::{Locate, RefNode};
+    fn one_locate<'a, T>(x: &'a T) -> Option<Locate>
+    where
+        &'a T: IntoIterator<Item = RefNode<'a>>,
+    {
+        let mut found = None;
+        for n in x {
+            if let RefNode::Locate(l) = n {
+                if found.is_some() {
+                    return None;
+                }
+                found = Some(*l);
+            }
+        }
+        found
+    }
+    init();
+    if in_directive {
+        begin_directive();
+    }
+    let s = Span::new_extra(text, SpanInfo::default());
+    macro_rules! loc {
+        ($f:ident) => {
+            match $f(s) {
+                Ok((rest, l)) => Some((text.len() - rest.fragment().len(), l.offset, l.len, l.line)),
+                Err(_) => None,
+            }
+        };
+    }
+    macro_rules! span {
+        ($f:ident) => {
+            match $f(s) {
+                Ok((rest, l)) => Some((
+                    text.len() - rest.fragment().len(),
+                    l.location_offset(),
+                    l.fragment().len(),
+                    l.location_line(),
+                )),
+                Err(_) => None,
+            }
+        };
+    }
+    macro_rules! node {
+        ($f:ident) => {
+            match $f(s) {
+                Ok((rest, x)) => match one_locate(&x) {
+                    Some(l) => Some((text.len() - rest.fragment().len(), l.offset, l.len, l.line)),
+                    None => Some((text.len() - rest.fragment().len(), usize::MAX, usize::MAX, 0)),
+                },
+                Err(_) => None,
+            }
+        };
+    }
+    let r = match name {
+        "non_zero_unsigned_number_impl" => loc!(non_zero_unsigned_number_impl),
+        "unsigned_number_impl" => loc!(unsigned_number_impl),
+        "binary_value_impl" => loc!(binary_value_impl),
+        "octal_value_impl" => loc!(octal_value_impl),
+        "hex_value_impl" => loc!(hex_value_impl),
+        "decimal_base_impl" => loc!(decimal_base_impl),
+        "binary_base_impl" => loc!(binary_base_impl),
+        "octal_base_impl" => loc!(octal_base_impl),
+        "hex_base_impl" => loc!(hex_base_impl),
+        "x_number_impl" => loc!(x_number_impl),
+        "z_number_impl" => loc!(z_number_impl),
+        "string_literal_impl" => loc!(string_literal_impl),
+        "angle_bracket_literal_impl" => loc!(angle_bracket_literal_impl),
+        "simple_identifier_pragma_impl" => loc!(simple_identifier_pragma_impl),
+        "c_identifier_impl" => loc!(c_identifier_impl),
+        "escaped_identifier_impl" => loc!(escaped_identifier_impl),
+        "simple_identifier_impl" => loc!(simple_identifier_impl),
+        "system_tf_identifier_impl" => loc!(system_tf_identifier_impl),
+        "define_argument" => span!(define_argument),
+        "define_argument_inner" => span!(define_argument_inner),
+        "define_argument_str" => span!(define_argument_str),
+        "define_argument_paren" => span!(define_argument_paren),
+        "define_argument_bracket" => span!(define_argument_bracket),
+        "define_argument_brace" => span!(define_argument_brace),
+        "one_line_comment" => node!(one_line_comment),
+        "block_comment" => node!(block_comment),
+        "macro_text" => node!(macro_text),
+        "source_description_not_directive" => node!(source_description_not_directive),
+        _ => {
+            clear_directive();
+            return None;
+        }
+    };
+    clear_directive();
+    Some(r)
+}
